@@ -345,6 +345,12 @@ let dispatch (f : Stdlib.String.t list) : Stdlib.String.t =
       (match sendmail_reads (unhexlist args) with
        | Some a -> Printf.sprintf "some\t%s\t%s;%s" (b01 a.sm_i) (match a.sm_f with Some x -> hex x | None -> "!") (hexlist a.sm_operands)
        | None -> "none")
+  | ["dkim.model_body"; c; b] -> hex (canon_body (if c = "r" then Relaxed else Simple) (unhex b))
+  | ["dkim.model_hrelax"; b] -> hex (canon_headers_relaxed (unhex b))
+  | ["dkim.model_sig_field"; e; sg] -> hex (sig_field (unhex e) (unhex sg))
+  | ["spec.dkim_body"; c; b] -> hex (spec_body (c = "r") (unhex b))
+  | ["spec.dkim_field"; b] -> hex (spec_field_relaxed (unhex b))
+  | ["spec.dkim_delete_b"; b] -> hex (delete_b (unhex b))
   | fn :: _ -> "UNKNOWN-FN " ^ fn
   | [] -> "EMPTY"
 
